@@ -1,4 +1,7 @@
-"""Per-property configuration of ./check (what to build, which build variants to run, what is trusted)."""
+"""Per-property configuration of ./check: one JSON fragment per property in tools/props.d/."""
+import glob
+import json
+import os
 
 TRUSTED_COMMON = [
     "Coq 8.16.1 kernel (coqc); vm_compute for finite sweeps and for evaluating the models on the generated cases; no native_compute",
@@ -7,15 +10,6 @@ TRUSTED_COMMON = [
     "rustc/LLVM, Rust core intrinsics as modelled in Model/Bits.v, 64-bit little-endian target",
 ]
 
-ALL4 = ["native_dev", "native_release", "portable_dev", "portable_release"]
-
-PROPS = {
-    "C17": {
-        "variants_quick": ALL4,
-        "variants_thorough": ALL4,
-        "rule": "exhaustive (offset 0..191 x width 1..64) write/read with structured values and backgrounds; every n in 0..=64 for masks; select on structured (<= 2 non-zero bytes) and random words over their ranks; helper edge arguments around every documented domain boundary; a case is non-trivial unless it lies outside the documented domain; distinct = distinct Coq case terms",
-        "trusted": ["_pdep_u64 / tzcnt / popcnt / lzcnt / bit reversal read as their mathematical definitions (Model/Bits.v)"],
-        "assumptions": ["u64 is 64 bits (WORD_BITS = 64 is pinned by consts_bits_ok)"],
-        "partial": "",
-    },
-}
+PROPS = {}
+for _p in sorted(glob.glob(os.path.join(os.path.dirname(os.path.abspath(__file__)), "props.d", "C*.json"))):
+    PROPS[os.path.basename(_p)[:-5]] = json.load(open(_p))
